@@ -145,9 +145,25 @@ pub fn gen_case(seed: u64, k: u64, tier: Tier) -> Case {
       }
     }
   }
+  // alias chains: a2 -> a1 -> module, imported by a root, so that reload can go through an alias
+  if rng.chance(60) && !plain.is_empty() {
+    let target = rng.pick(&plain).clone();
+    if target.starts_with("http") {
+      let a1 = format!("https://h.test/alias1_{}.ts", rng.below(3));
+      let a2 = format!("https://h.test/alias2_{}.ts", rng.below(3));
+      c.world.entries.insert(a1.clone(), Entry::Redirect(target.clone()));
+      c.world.entries.insert(a2.clone(), Entry::Redirect(a1.clone()));
+      let importer = roots[0].clone();
+      if let Some(Entry::Module { src, .. }) = c.world.entries.get_mut(&importer) {
+        src.imports.push(Imp { form: Form::Static, text: a2.clone() });
+      }
+    }
+  }
   c.roots = roots.clone();
   let imports = c.bcfg.imports.clone();
   let mode_pick = rng.below(10);
+  // the specifiers a reload actually re-loads (the ends of the aliases' redirect chains)
+  let mut reload_targets: Vec<String> = vec![];
   let mut strings: BTreeSet<String> = BTreeSet::new();
   let mut graphs: Vec<ModuleGraph> = vec![];
   // the histories are executed first on the real code; the model input is assembled afterwards
@@ -204,6 +220,37 @@ pub fn gen_case(seed: u64, k: u64, tier: Tier) -> Case {
     let in_graph: BTreeSet<String> = entries(&g).iter().map(|(s, _)| s.to_string()).collect();
     let (w2, edited) = edit_world(&mut rng, &c.world, &in_graph);
     let c2 = BuiltCase { lock: None, world: w2.clone(), roots: roots.clone(), bcfg: c.bcfg.clone(), unstable: c.unstable, max_redirects: c.max_redirects };
+    // reload through an alias half of the time: a redirect source (preferably the head of a chain of
+    // two or more hops) whose chain ends at the edited specifier
+    let mut reload_specs: Vec<String> = vec![];
+    for e in &edited {
+      let eu = ModuleSpecifier::parse(e).unwrap();
+      let mut aliases: Vec<(usize, String)> = vec![];
+      for (a, _) in &g.redirects {
+        if g.resolve(a) == &eu {
+          // hops from a
+          let mut hops = 0;
+          let mut cur = a.clone();
+          while let Some(n) = g.redirects.get(&cur) {
+            hops += 1;
+            cur = n.clone();
+            if hops > 12 {
+              break;
+            }
+          }
+          aliases.push((hops, a.to_string()));
+        }
+      }
+      aliases.sort();
+      if !aliases.is_empty() && rng.chance(60) {
+        reload_specs.push(aliases.last().unwrap().1.clone());
+      } else {
+        reload_specs.push(e.clone());
+      }
+    }
+    let edited_orig = edited.clone();
+    let edited = reload_specs;
+    reload_targets = edited_orig.clone();
     let log = real_reload(&c2, &mut g, &edited);
     let mut alt = ModuleGraph::new(kind);
     real_build(&c2, &mut alt, &roots, &imports);
@@ -251,7 +298,8 @@ pub fn gen_case(seed: u64, k: u64, tier: Tier) -> Case {
   } else {
     vec![]
   };
-  let reloaded: Vec<u64> = ops_desc.iter().filter(|(t, _)| *t == 1).flat_map(|(_, s)| s.iter().map(|x| it.spec(x)).collect::<Vec<_>>()).collect();
+  let mut reloaded: Vec<u64> = ops_desc.iter().filter(|(t, _)| *t == 1).flat_map(|(_, s)| s.iter().map(|x| it.spec(x)).collect::<Vec<_>>()).collect();
+  reloaded.extend(reload_targets.iter().map(|x| it.spec(x)));
   let n = final_graph.specifiers_count();
   Case {
     input: Sx::L(vec![opts_sx(&c), Sx::L(ops_sx), strip_refs(&part(&fin, 2)), part(&fin, 3), strip_refs(&part(&alt, 2)), part(&alt, 3), Sx::A(mode), Sx::L(vec![Sx::atoms(keys), Sx::atoms(reloaded)]), strip_refs(&before)]),
